@@ -288,3 +288,28 @@ def program(rnd, cpp):
         elif k == "ns":
             out.append("namespace ns_%s { struct In { %s q; }; typedef In Alias; }" % (nm, ty()))
     return "\n".join(out) + "\n"
+
+
+def annotations():
+    """Doc-comment annotations (`<div rustbindgen ...>`) in odd places: -> list of (shape, extension, text)."""
+    D = '/// <div rustbindgen %s></div>\n'
+    out = [
+        ("annotation-replaces-self-through-alias", ".hpp",
+         "template <typename a> using MaybeWrapped = a;\nclass Rooted {\n" + D % 'replaces="MaybeWrapped"' +
+         "  MaybeWrapped<int> ptr;\n};\n"),
+        ("annotation-replaces-missing", ".hpp", D % 'replaces="Missing"' + "struct R { int x; };\n"),
+        ("annotation-replaces-mutual", ".hpp", D % 'replaces="B"' + "struct A { int x; };\n" + D % 'replaces="A"' +
+         "struct B { char y; };\nstruct U { A a; B b; };\n"),
+        ("annotation-replaces-self", ".hpp", D % 'replaces="A"' + "struct A { int x; };\nstruct U { A a; };\n"),
+        ("annotation-replaces-template", ".hpp", "template<class T> struct W { T t; };\n" + D % 'replaces="W"' +
+         "template<class T> struct W_repl { T* p; };\nW<int> w;\n"),
+        ("annotation-opaque-hide", ".hpp", D % 'opaque' + "template<class T> struct O { T t; };\n" + D % 'hide' +
+         "struct H { int x; };\nstruct U { O<int> o; H* h; };\n"),
+        ("annotation-field", ".hpp", "struct F {\n" + D % 'accessor="unsafe"' + "  int a;\n" + D % 'private="true"' +
+         "  int b;\n" + D % 'private="maybe" accessor="bogus"' + "  int c;\n};\n"),
+        ("annotation-derive", ".hpp", D % 'derive="Foo" derive="" nocopy nodebug mustusetype' + "struct Dv { int x; };\n"),
+        ("annotation-garbage", ".hpp", '/// <div rustbindgen =></div>\n/// <div rustbindgen replaces="X"\n/// <div rustbindgen replaces=></div>\n'
+         "struct G { int x; };\n/** <div rustbindgen replaces=\"G\"> */\nstruct G2 { int y; };\n"),
+        ("annotation-constant", ".hpp", "enum class En { A, B };\nenum Cn {\n" + D % 'constant' + "  CA,\n" + D % 'hide' + "  CB\n};\n"),
+    ]
+    return out
